@@ -84,6 +84,42 @@ ScriptValid(es, lhs, rhs) ==
   IF es = <<>> THEN lhs = rhs
   ELSE lhs # rhs /\ Valid(es, lhs, rhs) /\ Produced(es, 1) = rhs /\ Consumed(es, 1) = lhs /\ Canonical(es)
 
+(* ---- elements that are equal under == but distinguishable ---------------- *)
+\* For float64 elements +0 and -0 are == yet different values.  The harness
+\* encodes -0 as NegZero and +0 as 0; Cl maps an element to its ==-class.
+\* "X is the very span of lhs" then means the codes of lhs (not those of the
+\* ==-equal elements of rhs); what the script produces equals rhs up to ==.
+NegZero == 1000
+Cl(x) == IF x = NegZero THEN 0 ELSE x
+ClSeq(q) == [i \in DOMAIN q |-> Cl(q[i])]
+
+RECURSIVE ValidFromZ(_, _, _, _, _, _)
+ValidFromZ(es, k, lhs, rhs, lp, rp) ==
+  IF k > Len(es) THEN lp = Len(lhs) /\ rp = Len(rhs)
+  ELSE LET e == es[k] op == e[1] X == e[2] Y == e[3]
+       IN  CASE op = "=" -> /\ X # <<>> /\ Y = <<>>
+                            /\ lp + Len(X) <= Len(lhs) /\ rp + Len(X) <= Len(rhs)
+                            /\ X = Span(lhs, lp, Len(X))                       \* lhs's own elements
+                            /\ ClSeq(X) = ClSeq(Span(rhs, rp, Len(X)))         \* == to rhs's
+                            /\ ValidFromZ(es, k + 1, lhs, rhs, lp + Len(X), rp + Len(X))
+             [] op = "-" -> /\ X # <<>> /\ Y = <<>> /\ lp + Len(X) <= Len(lhs) /\ X = Span(lhs, lp, Len(X))
+                            /\ ValidFromZ(es, k + 1, lhs, rhs, lp + Len(X), rp)
+             [] op = "+" -> /\ Y # <<>> /\ X = <<>> /\ rp + Len(Y) <= Len(rhs) /\ Y = Span(rhs, rp, Len(Y))
+                            /\ ValidFromZ(es, k + 1, lhs, rhs, lp, rp + Len(Y))
+             [] op = "!" -> /\ X # <<>> /\ Y # <<>>
+                            /\ lp + Len(X) <= Len(lhs) /\ rp + Len(Y) <= Len(rhs)
+                            /\ X = Span(lhs, lp, Len(X)) /\ Y = Span(rhs, rp, Len(Y))
+                            /\ ValidFromZ(es, k + 1, lhs, rhs, lp + Len(X), rp + Len(Y))
+             [] OTHER -> FALSE
+
+ScriptOKZ(es, lhs, rhs) ==
+  IF es = <<>> THEN ClSeq(lhs) = ClSeq(rhs)
+  ELSE /\ ClSeq(lhs) # ClSeq(rhs)
+       /\ ValidFromZ(es, 1, lhs, rhs, 0, 0)
+       /\ ClSeq(Produced(es, 1)) = ClSeq(rhs) /\ Consumed(es, 1) = lhs
+       /\ Kept(es, 1) = LCSLen(ClSeq(lhs), ClSeq(rhs))
+       /\ Canonical(es)
+
 LcsOK(out, a, b) == IsSubseq(out, a) /\ IsSubseq(out, b) /\ Len(out) = LCSLen(a, b)
 
 (* ---- transcription of slice/edit.go ------------------------------------ *)
